@@ -83,6 +83,42 @@ theorem cleanup_ttl (s : State) (now : Nat) :
   simp only
   split <;> simp
 
+/-- `cleanup` only removes edges -/
+theorem cleanup_graph_sub (s : State) (now : Nat) : ∀ e ∈ (s.cleanup now).graph, e ∈ s.graph := by
+  intro e he
+  rw [cleanup_graph] at he
+  exact ((mem_foldl_dropAccess _ _).mp he).1
+
+/-- `cleanup_expired_grants` twice at the same instant = once (why the repeated calls inside one API call —
+    `get`: top + `check_access`; `list`: top + every `has_access`; `delegate`: every `get_permission` — are
+    modelled by a single `cleanup now`) -/
+theorem cleanup_cleanup (s : State) (now : Nat) : (s.cleanup now).cleanup now = s.cleanup now := by
+  have hexp : (s.cleanup now).ttl.filter (fun t => decide (t.expires ≤ now)) = [] := by
+    rw [cleanup_ttl, List.filter_filter]
+    simp
+  have hkeep : (s.cleanup now).ttl.filter (fun t => !(decide (t.expires ≤ now))) = (s.cleanup now).ttl := by
+    rw [cleanup_ttl, List.filter_filter]
+    simp
+  generalize s.cleanup now = c at hexp hkeep ⊢
+  unfold State.cleanup
+  simp only [hexp, hkeep, List.foldl_nil, Nat.lt_irrefl, if_false]
+
+theorem MPath.mono {g g' : Graph} (hsub : ∀ e ∈ g, e ∈ g') {a b k : Nat} (h : MPath g a b k) : MPath g' a b k := by
+  induction h with
+  | refl => exact .refl
+  | step e _ he hk hs ih => exact .step e ih (hsub e he) hk hs
+
+/-- a justification found in a sub-graph (same policy) is a justification in the larger graph -/
+theorem Justified.mono {s s' : State} {req sec : Nat} {need : Level} {P : Edge → Prop}
+    (h : Justified s req sec need P) (hpol : s.pol = s'.pol) (hsub : ∀ e ∈ s.graph, e ∈ s'.graph) :
+    Justified s' req sec need P := by
+  obtain ⟨l, e, ⟨k, grp, hpath, hk, he, hsrc, hdst, hacc, hlvl⟩, hl, hp⟩ := h
+  exact ⟨l, e, ⟨k, grp, hpath.mono hsub, hpol ▸ hk, hsub e he, hsrc, hdst, hacc, hpol ▸ hlvl⟩, hl, hp⟩
+
+theorem Justified.of_cleanup {s : State} {now req sec : Nat} {need : Level} {P : Edge → Prop}
+    (h : Justified (s.cleanup now) req sec need P) : Justified s req sec need P :=
+  h.mono (cleanup_pol s now) (cleanup_graph_sub s now)
+
 /-- after `cleanup_expired_grants` at `now`: the invariant still holds and every remaining edge is unexpired -/
 theorem TI.cleanup {s : State} (h : TI s.graph s.ttl) (now : Nat) :
     TI (s.cleanup now).graph (s.cleanup now).ttl ∧ ∀ e ∈ (s.cleanup now).graph, LiveAt now e := by
@@ -113,37 +149,40 @@ theorem addAccess_graph (s : State) (ent sec : Nat) (l : Level) (x : Option Nat)
 @[simp] theorem addAccess_ttl (s : State) (ent sec : Nat) (l : Level) (x : Option Nat) :
     (s.addAccess ent sec l x).ttl = s.ttl := rfl
 
-theorem set_inv {s : State} (h : TI s.graph s.ttl) (req sec val size : Nat) :
-    TI (s.set req sec val size).1.graph (s.set req sec val size).1.ttl := by
+theorem guarded_ti {s : State} (h : TI s.graph s.ttl) {now req sec : Nat} {need : Level} {k : State → State × Resp}
+    (hk : ∀ s' : State, TI s'.graph s'.ttl → TI (k s').1.graph (k s').1.ttl) :
+    TI (s.guarded now req sec need k).1.graph (s.guarded now req sec need k).1.ttl :=
+  guarded_inv (fun s => TI s.graph s.ttl) h (h.cleanup now).1 hk
+
+theorem set_inv {s : State} (h : TI s.graph s.ttl) (now req sec val size : Nat) :
+    TI (s.set now req sec val size).1.graph (s.set now req sec val size).1.ttl := by
   unfold State.set
   split
   · exact h
   · split
-    · split
-      · exact h
-      · simpa using h
+    · exact guarded_ti h (fun s' hs' => by simpa using hs')
     · split
       · exact h
       · simp only [audit_graph, audit_ttl, addAccess_graph, addAccess_ttl, putSecret_graph, putSecret_ttl]
         exact h.append _ rfl
 
-theorem get_ttl (s : State) (now req sec : Nat) : (s.get now req sec).1.ttl = (s.cleanup now).ttl := by
+theorem get_inv {s : State} (h : TI s.graph s.ttl) (now req sec : Nat) :
+    TI (s.get now req sec).1.graph (s.get now req sec).1.ttl := by
   unfold State.get
-  simp only
+  refine guarded_ti (h.cleanup now).1 (fun s' hs' => ?_)
   split
-  · rfl
-  · split <;> rfl
+  · exact hs'
+  · exact hs'
 
-theorem rotate_inv {s : State} (h : TI s.graph s.ttl) (req sec val size : Nat) :
-    TI (s.rotate req sec val size).1.graph (s.rotate req sec val size).1.ttl := by
+theorem rotate_inv {s : State} (h : TI s.graph s.ttl) (now req sec val size : Nat) :
+    TI (s.rotate now req sec val size).1.graph (s.rotate now req sec val size).1.ttl := by
   unfold State.rotate
+  refine guarded_ti h (fun s' hs' => ?_)
   split
-  · exact h
+  · exact hs'
   · split
-    · exact h
-    · split
-      · exact h
-      · simpa using h
+    · exact hs'
+    · simpa using hs'
 
 theorem mem_foldl_ttlRemove_of_ne {sec : Nat} {t : TtlEntry} (hne : t.sec ≠ sec) :
     ∀ (es : List Edge) (l : List TtlEntry), t ∈ l →
@@ -156,68 +195,95 @@ theorem mem_foldl_ttlRemove_of_ne {sec : Nat} {t : TtlEntry} (hne : t.sec ≠ se
     · exact mem_ttlRemove.mpr ⟨h, fun hh => hne hh.2⟩
     · exact h
 
-theorem delete_inv {s : State} (h : TI s.graph s.ttl) (req sec : Nat) :
-    TI (s.delete req sec).1.graph (s.delete req sec).1.ttl := by
+theorem delete_inv {s : State} (h : TI s.graph s.ttl) (now req sec : Nat) :
+    TI (s.delete now req sec).1.graph (s.delete now req sec).1.ttl := by
   unfold State.delete
+  refine guarded_ti h (fun s' hs' => ?_)
   split
-  · exact h
-  · split
+  · exact hs'
+  · simp only [audit_graph, audit_ttl, persistTtl_graph, persistTtl_ttl]
+    refine hs'.mono (fun e he => (List.mem_filter.mp he).1) ?_
+    intro e he t ht _ h2 _
+    apply mem_foldl_ttlRemove_of_ne _ _ _ ht
+    intro hsec
+    have hd := (List.mem_filter.mp he).2
+    simp only [decide_eq_true_eq] at hd
+    exact hd (by rw [h2, hsec])
+
+/-- `grant_with_permission`: either nothing but (possibly) a cleanup happened and the answer is an error, or one
+    edge with the requested expiry was appended to a state satisfying the invariant -/
+theorem grantCore_cases {s : State} (h : TI s.graph s.ttl) (now req ent sec : Nat) (l : Level) (x : Option Nat) :
+    let r := s.grantCore now req ent sec l x
+    ((∃ e, r.2 = .err e) ∧ TI r.1.graph r.1.ttl) ∨
+    (r.2 = .ok ∧ ∃ s0 : State, TI s0.graph s0.ttl ∧ r.1.graph = s0.graph ++ [accessEdge s0.nextId ent sec l x] ∧
+      r.1.ttl = s0.ttl) := by
+  intro r
+  have hfst : TI (s.checkAccess now req sec .admin).1.graph (s.checkAccess now req sec .admin).1.ttl := by
+    rw [checkAccess_fst]; split
     · exact h
-    · simp only [audit_graph, audit_ttl, persistTtl_graph, persistTtl_ttl]
-      refine h.mono (fun e he => (List.mem_filter.mp he).1) ?_
-      intro e he t ht _ h2 _
-      apply mem_foldl_ttlRemove_of_ne _ _ _ ht
-      intro hsec
-      have hd := (List.mem_filter.mp he).2
-      simp only [decide_eq_true_eq] at hd
-      exact hd (by rw [h2, hsec])
+    · exact (h.cleanup now).1
+  show (_ ∧ _) ∨ _
+  rcases guarded_cases s now req sec .admin (fun s : State =>
+      if !s.exists sec then (s, .err .notFound)
+      else ((s.addAccess ent sec l x).audit req sec "grant" [.ident ent], .ok)) with ⟨e, he⟩ | ⟨_, he⟩
+  · left
+    have : r = ((s.checkAccess now req sec .admin).1, .err e) := he
+    rw [this]; exact ⟨⟨e, rfl⟩, hfst⟩
+  · have hr : r = (fun s : State =>
+        if !s.exists sec then (s, Resp.err .notFound)
+        else ((s.addAccess ent sec l x).audit req sec "grant" [.ident ent], Resp.ok))
+        (s.checkAccess now req sec .admin).1 := he
+    simp only at hr
+    by_cases hex : (!(s.checkAccess now req sec .admin).1.exists sec) = true
+    · left
+      rw [if_pos hex] at hr
+      rw [hr]; exact ⟨⟨_, rfl⟩, hfst⟩
+    · right
+      rw [if_neg hex] at hr
+      rw [hr]
+      exact ⟨rfl, _, hfst, rfl, rfl⟩
 
-theorem grantCore_inv {s s' : State} (_h : TI s.graph s.ttl) {req ent sec : Nat} {l : Level} {x : Option Nat}
-    (hg : s.grantCore req ent sec l x = .ok s') :
-    s'.graph = s.graph ++ [accessEdge s.nextId ent sec l x] ∧ s'.ttl = s.ttl := by
-  unfold State.grantCore at hg
-  split at hg
-  · cases hg
-  · split at hg
-    · cases hg
-    · cases hg; exact ⟨rfl, rfl⟩
-
-theorem grant_inv {s : State} (h : TI s.graph s.ttl) (req ent sec : Nat) (l : Level) :
-    TI (s.grant req ent sec l).1.graph (s.grant req ent sec l).1.ttl := by
+theorem grant_inv {s : State} (h : TI s.graph s.ttl) (now req ent sec : Nat) (l : Level) :
+    TI (s.grant now req ent sec l).1.graph (s.grant now req ent sec l).1.ttl := by
   unfold State.grant
-  split
-  · exact h
-  · rename_i s' hg
-    obtain ⟨h1, h2⟩ := grantCore_inv h hg
-    simp only [h1, h2]
-    exact h.append _ rfl
+  rcases grantCore_cases h now req ent sec l none with ⟨_, h1⟩ | ⟨_, s0, h0, hg, ht⟩
+  · exact h1
+  · rw [hg, ht]; exact h0.append _ rfl
 
 theorem grantTtl_inv {s : State} (h : TI s.graph s.ttl) (now req ent sec : Nat) (l : Level) (ttl : Nat) :
     TI (s.grantTtl now req ent sec l ttl).1.graph (s.grantTtl now req ent sec l ttl).1.ttl := by
   unfold State.grantTtl
-  split
-  · exact h
-  · rename_i s' hg
-    obtain ⟨h1, h2⟩ := grantCore_inv h hg
-    simp only [persistTtl_graph, persistTtl_ttl, h1, h2]
-    intro e he x hx
-    rcases List.mem_append.mp he with he | he
-    · obtain ⟨a, b, q1, q2, q3, q4⟩ := h e he x hx
-      exact ⟨a, b, q1, q2, q3, List.mem_append_left _ q4⟩
-    · rw [List.mem_singleton] at he; subst he
-      simp only [accessEdge, Option.some.injEq] at hx; subst hx
-      exact ⟨ent, sec, rfl, rfl, rfl, List.mem_append_right _ (List.mem_singleton.mpr rfl)⟩
+  rcases grantCore_cases h now req ent sec l (some (now + ttl)) with ⟨⟨e, he⟩, h1⟩ | ⟨hok, s0, h0, hg, ht⟩
+  · split
+    · rename_i s' e' heq
+      rw [heq] at h1; exact h1
+    · rename_i s' r hne heq
+      rw [heq] at he
+      exact absurd he (hne e)
+  · split
+    · rename_i s' e' heq
+      rw [heq] at hok; cases hok
+    · rename_i s' r hne heq
+      rw [heq] at hg ht
+      simp only at hg ht
+      simp only [persistTtl_graph, persistTtl_ttl, hg, ht]
+      intro e he x hx
+      rcases List.mem_append.mp he with he | he
+      · obtain ⟨a, b, q1, q2, q3, q4⟩ := h0 e he x hx
+        exact ⟨a, b, q1, q2, q3, List.mem_append_left _ q4⟩
+      · rw [List.mem_singleton] at he; subst he
+        simp only [accessEdge, Option.some.injEq] at hx; subst hx
+        exact ⟨ent, sec, rfl, rfl, rfl, List.mem_append_right _ (List.mem_singleton.mpr rfl)⟩
 
-theorem revoke_inv {s : State} (h : TI s.graph s.ttl) (req ent sec : Nat) :
-    TI (s.revoke req ent sec).1.graph (s.revoke req ent sec).1.ttl := by
+theorem revoke_inv {s : State} (h : TI s.graph s.ttl) (now req ent sec : Nat) :
+    TI (s.revoke now req ent sec).1.graph (s.revoke now req ent sec).1.ttl := by
   unfold State.revoke
+  refine guarded_ti h (fun s' hs' => ?_)
+  simp only [audit_graph, audit_ttl]
   split
-  · exact h
-  · simp only [audit_graph, audit_ttl]
-    split
-    · simp only [persistTtl_graph, persistTtl_ttl]
-      exact (h.drop ent sec).1
-    · exact (h.drop ent sec).2
+  · simp only [persistTtl_graph, persistTtl_ttl]
+    exact (hs'.drop ent sec).1
+  · exact (hs'.drop ent sec).2
 
 theorem foldl_addAccess {child : Nat} {eff : Level} {exp : Option Nat} :
     ∀ (secs : List Nat) (s0 : State),
@@ -270,46 +336,56 @@ theorem TI.add_grants {g g' : Graph} {ttl ttl' : List TtlEntry} (h : TI g ttl) {
     exact ⟨a, b, q1, q2, q3, ht _ q4⟩
   · exact ⟨child, sec, rfl, rfl, rfl, hn x hx sec hs⟩
 
+theorem delegateApply_inv {s : State} (h : TI s.graph s.ttl) (now parent child : Nat) (secs : List Nat) (eff : Level)
+    (ttl : Option Nat) :
+    TI (s.delegateApply now parent child secs eff ttl).1.graph (s.delegateApply now parent child secs eff ttl).1.ttl := by
+  cases ttl with
+  | none =>
+    unfold State.delegateApply
+    split
+    · exact h
+    · split
+      · exact h
+      · simp only
+        split
+        · exact h
+        · simp only [foldl_audit_graph, foldl_audit_ttl, persistDelegs_graph, persistDelegs_ttl, Option.map_none]
+          refine h.add_grants (secs := secs) (foldl_addAccess secs _).2 ?_ (fun x hx => nomatch hx)
+          intro t ht
+          rw [(foldl_addAccess secs _).1]
+          exact ht
+  | some tt =>
+    unfold State.delegateApply
+    split
+    · exact h
+    · split
+      · exact h
+      · simp only
+        split
+        · exact h
+        · simp only [foldl_audit_graph, foldl_audit_ttl, persistDelegs_graph, persistDelegs_ttl, persistTtl_graph,
+            persistTtl_ttl, Option.map_some]
+          refine h.add_grants (secs := secs) (foldl_addAccess secs _).2 ?_ ?_
+          · intro t ht
+            rw [(foldl_addAccess secs _).1]
+            exact List.mem_append_left _ ht
+          · intro x hx sec hs
+            cases hx
+            exact List.mem_append_right _ (List.mem_map.mpr ⟨sec, hs, rfl⟩)
+
 theorem delegate_inv {s : State} (h : TI s.graph s.ttl) (now parent child : Nat) (secs : List Nat) (l : Level)
     (ttl : Option Nat) :
     TI (s.delegate now parent child secs l ttl).1.graph (s.delegate now parent child secs l ttl).1.ttl := by
-  cases ttl with
-  | none =>
-    unfold State.delegate
+  have h0 : TI (if parent = root || secs.isEmpty then s else s.cleanup now).graph
+      (if parent = root || secs.isEmpty then s else s.cleanup now).ttl := by
     split
     · exact h
-    · simp only
-      split
-      · exact h
-      · split
-        · exact h
-        · split
-          · exact h
-          · simp only [foldl_audit_graph, foldl_audit_ttl, persistDelegs_graph, persistDelegs_ttl, Option.map_none]
-            refine h.add_grants (secs := secs) (foldl_addAccess secs _).2 ?_ (fun x hx => nomatch hx)
-            intro t ht
-            rw [(foldl_addAccess secs _).1]
-            exact ht
-  | some tt =>
-    unfold State.delegate
-    split
-    · exact h
-    · simp only
-      split
-      · exact h
-      · split
-        · exact h
-        · split
-          · exact h
-          · simp only [foldl_audit_graph, foldl_audit_ttl, persistDelegs_graph, persistDelegs_ttl, persistTtl_graph,
-              persistTtl_ttl, Option.map_some]
-            refine h.add_grants (secs := secs) (foldl_addAccess secs _).2 ?_ ?_
-            · intro t ht
-              rw [(foldl_addAccess secs _).1]
-              exact List.mem_append_left _ ht
-            · intro x hx sec hs
-              cases hx
-              exact List.mem_append_right _ (List.mem_map.mpr ⟨sec, hs, rfl⟩)
+    · exact (h.cleanup now).1
+  unfold State.delegate
+  simp only
+  split
+  · exact h0
+  · exact delegateApply_inv h0 _ _ _ _ _ _
 
 theorem undelegate_inv {s : State} (h : TI s.graph s.ttl) (parent child : Nat) :
     TI (s.undelegate parent child).1.graph (s.undelegate parent child).1.ttl := by
@@ -339,14 +415,14 @@ theorem list_graph_ttl (s : State) (now req : Nat) (p : Pattern) :
 theorem step_inv {s : State} (h : TI s.graph s.ttl) (t : Nat) (op : Op) :
     TI (step s t op).1.graph (step s t op).1.ttl := by
   cases op with
-  | set req sec val size => exact set_inv h req sec val size
-  | get req sec => simp only [step]; rw [get_graph, get_ttl]; exact (h.cleanup t).1
+  | set req sec val size => exact set_inv h t req sec val size
+  | get req sec => exact get_inv h t req sec
   | list req p => simp only [step]; rw [(list_graph_ttl s t req p).1, (list_graph_ttl s t req p).2]; exact (h.cleanup t).1
-  | rotate req sec val size => exact rotate_inv h req sec val size
-  | delete req sec => exact delete_inv h req sec
-  | grant req ent sec l => exact grant_inv h req ent sec l
+  | rotate req sec val size => exact rotate_inv h t req sec val size
+  | delete req sec => exact delete_inv h t req sec
+  | grant req ent sec l => exact grant_inv h t req ent sec l
   | grantTtl req ent sec l ttl => exact grantTtl_inv h t req ent sec l ttl
-  | revoke req ent sec => exact revoke_inv h req ent sec
+  | revoke req ent sec => exact revoke_inv h t req ent sec
   | delegate p c secs l ttl => exact delegate_inv h t p c secs l ttl
   | undelegate p c => exact undelegate_inv h p c
   | addMember a b => exact addMember_inv h a b
